@@ -162,8 +162,9 @@ Section Run.
     | None => rest
     end.
 
-  Record astate := { a_tv : tvenv; a_cons : list src; a_checked : list pname }.
-  Definition astate0 : astate := {| a_tv := []; a_cons := []; a_checked := [] |}.
+  (* a_idx: FunctionCall._num_of_args_bound_to_named_params (class attribute default 0; set at the end of _check_type_param) *)
+  Record astate := { a_tv : tvenv; a_cons : list src; a_checked : list pname; a_idx : nat }.
+  Definition astate0 : astate := {| a_tv := []; a_cons := []; a_checked := []; a_idx := 0 |}.
 
   Section Passes.
     Variable f : fn.
@@ -176,7 +177,7 @@ Section Run.
       | Ok _ =>
           match check a v (a_tv st) with
           | (Ok _, tv') => Ok {| a_tv := tv'; a_cons := if consumes a v then a_cons st ++ [s] else a_cons st;
-                                 a_checked := a_checked st |}
+                                 a_checked := a_checked st; a_idx := a_idx st |}
           | (Raise e, _) => Raise e
           end
       end.
@@ -184,10 +185,10 @@ Section Run.
     (* _check_type_param *)
     Fixpoint pass_named (ps : list param) (idx : nat) (st : astate) : outcome astate :=
       match ps with
-      | [] => Ok st
+      | [] => Ok {| a_tv := a_tv st; a_cons := a_cons st; a_checked := a_checked st; a_idx := idx |}
       | p :: ps' =>
           let k := p_name p in
-          let st := {| a_tv := a_tv st; a_cons := a_cons st; a_checked := a_checked st ++ [k] |} in
+          let st := {| a_tv := a_tv st; a_cons := a_cons st; a_checked := a_checked st ++ [k]; a_idx := a_idx st |} in
           match p_ann p with
           | None => Raise PTypeCheckC                                   (* "should have a type hint" *)
           | Some a =>
@@ -208,14 +209,15 @@ Section Run.
       | (v, s) :: l' => Exn.bind (chk a v s st) (chk_all a l')
       end.
 
-    (* _check_types_args: every element of self.args, the receiver included *)
+    (* _check_types_args: the elements of self.args behind those the first pass bound to named parameters
+       (self.args[self._num_of_args_bound_to_named_params:]) *)
     Definition pass_varpos (ps : list param) (st : astate) : outcome astate :=
       match ps with
       | [] => Ok st
       | p :: _ =>
           match p_ann p with
           | None => Raise PTypeCheckC
-          | Some a => chk_all a (combine (wargs c) (wsrc c)) st
+          | Some a => chk_all a (skipn (a_idx st) (combine (wargs c) (wsrc c))) st
           end
       end.
 
